@@ -265,7 +265,9 @@ public:
                 // likely to fail. In particular, if beta=0, then the test is ensured to fail.
                 // Hence when this happens, we force f to be zero, and then restart in the
                 // next iteration.
-                if (m_beta < beta_thresh)
+                // "Close to zero" is measured against the magnitude of the projected matrix H
+                // (i.e. of A on the current subspace), not against 1
+                if (m_beta < beta_thresh * m_fac_H.topLeftCorner(i1, i1).cwiseAbs().maxCoeff())
                 {
                     m_fac_f.setZero();
                     m_beta = RealScalar(0);
